@@ -12,6 +12,7 @@ import MF.Model.Walk
 import MF.Model.TreeParse
 import MF.Model.Expr
 import MF.Spec.PrintToks
+import MF.Model.ExprPos
 import MF.Gen.Catalog
 import MF.Gen.PosDoc
 import MF.Gen.PosGo
@@ -172,6 +173,10 @@ def handle (line : String) : String :=
   | ["EXPR", h] =>
     match ofHex? (if h == "-" then "" else h) with
     | some buf => Expr.exprRunRT buf
+    | none => "BADREQ"
+  | ["EXPRPOS", h] =>
+    match ofHex? (if h == "-" then "" else h) with
+    | some buf => Expr.exprPosRunC buf
     | none => "BADREQ"
   | ["TYPE", h] =>
     match ofHex? (if h == "-" then "" else h) with
